@@ -1222,3 +1222,104 @@ def pr1(P, C, floor=40):
              "no conversion to float and no float local" if not bad else
              "%s at %s: the double-precision instantiation rounds an intermediate to single precision" % (bad[0][1], f.loc(bad[0][0])))
     return n
+
+
+# --------------------------------------------------------------------------
+# RE-1: no hidden state shared between calls
+# --------------------------------------------------------------------------
+def hidden_state(f):
+    """[(node, description)]: non-const static locals of f, and stores to non-const variables of namespace scope"""
+    out = []
+    for i in f.walk():
+        n = f.nodes[i]
+        if n["k"] == "DeclStmt":
+            for d in n["decls"]:
+                t = d.get("type", "")
+                if d.get("dk") == "Var" and d.get("static") and not t.startswith("const ") and "constexpr" not in t:
+                    out.append((i, "static local `%s` (%s)" % (d.get("name"), t)))
+        ap = ts.assign_parts(f, i)
+        if ap:
+            l = f.strip(ap[0])
+            while f.k(l) in ("ArraySubscriptExpr", "MemberExpr") and f.ch(l):
+                l = f.strip(f.ch(l)[0])
+            if f.k(l) == "DeclRefExpr" and f.nodes[l]["decl"].get("kind") == "Var" and f.nodes[l]["decl"].get("qname") and \
+                    not f.nodes[l]["decl"].get("type", "").startswith("const "):
+                out.append((i, "store to the namespace-scope variable `%s`" % f.nodes[l]["decl"]["qname"]))
+    return out
+
+
+def re1(P, C, floor=150):
+    C.rule("RE-1", "no function of the library keeps state between calls: no non-const static local, no store to a variable of namespace scope. "
+           "Evaluation, lookup and comparison are const operations that callers run on several threads at once (one table, many evaluating "
+           "threads is the normal use); scratch kept in a static is then shared, one thread's basis values overwrite another's and the value "
+           "returned is not the tensor-product sum of any point", floor=1)
+    n = 0
+    bad_all = []
+    for f in sorted(P.functions.values(), key=lambda g: (g.file, g.line, g.qname)):
+        if f.unit.startswith("selftest") or f.unit.startswith("tools/"):
+            continue
+        n += 1
+        bad = hidden_state(f)
+        if bad:
+            bad_all.append((f, bad))
+            C.ob("RE-1", ts.fshort(f) if f.cls else f.name, "no-hidden-state", False, f.loc(bad[0][0]),
+                 "%s: shared by every call and every thread; concurrent const calls on tables race on it" % bad[0][1])
+    C.ob("RE-1", "library", "functions-without-hidden-state", not bad_all, "include/photospline",
+         "%d functions analysed, none has a non-const static local or stores to a namespace-scope variable" % n if not bad_all else
+         "%d function(s) keep state between calls" % len(bad_all))
+    if n < floor:
+        raise core.AnalysisBroken("RE-1: only %d functions analysed" % n)
+    return n
+
+
+def cl10(P, C):
+    """CL-10: the row of recursive derivative values covers the supported basis functions and nothing beyond."""
+    C.rule("CL-10", "in ndsplineeval_deriv (table and evaluator) the recursive reference is called for the basis functions "
+           "centers[n]-order[n]+i, i = 0..order[n], exactly: bspline_deriv(knots, x, j, order, d) reads knots[j..j+order+1], and the centre "
+           "is at most nknots-order-2, so j <= centers[n] keeps the reads inside the knot vector; a loop that runs on to the row's width "
+           "(maxdegree) reads past the knots for every dimension whose order is below the table's maximum", floor=2)
+    n = 0
+    for f in sorted(entry_points(P), key=lambda f: (f.cls, f.name, str(f.targs))):
+        if f.name != "ndsplineeval_deriv":
+            continue
+        is_ev = "evaluator_type" in (f.cls or "")
+        name = ("evaluator::" if is_ev else "table::") + "%s<%s>" % (f.name, ",".join(str(t) for t in f.targs) or (re.findall(r"evaluator_type<(\w*)>", f.cls or "") or [""])[0])
+        for i, cal in f.calls():
+            if not cal or cal["name"] != "bspline_deriv":
+                continue
+            a = f.args(i)
+            L = next((x for x in f.ancestors(i) if f.k(x) == "ForStmt"), None)
+            ok, det = False, "the call is not inside a counting loop"
+            if L is not None:
+                ln = f.nodes[L]
+                ini = f.nodes[ln["init"]] if ln.get("init", -1) >= 0 else None
+                cond = f.nodes[f.strip(ln["cond"])] if ln.get("cond", -1) >= 0 else None
+                inc = f.nodes[f.strip(ln["inc"])] if ln.get("inc", -1) >= 0 else None
+                vid = None
+                if ini is not None and ini["k"] == "DeclStmt" and len(ini["decls"]) == 1 and ini["decls"][0].get("init", -1) >= 0 and \
+                        f.nodes[f.strip(ini["decls"][0]["init"])].get("cv") == 0:
+                    vid = ini["decls"][0]["id"]
+                plain = vid is not None and cond is not None and cond["k"] == "BinaryOperator" and cond["op"] in ("<", "<=") and \
+                    f.k(f.strip(cond["ch"][0])) == "DeclRefExpr" and f.nodes[f.strip(cond["ch"][0])]["decl"]["id"] == vid and \
+                    inc is not None and inc["k"] == "UnaryOperator" and inc["op"] == "++" and \
+                    not any(f.k(x) in ("BreakStmt", "ContinueStmt", "GotoStmt") for x in f.walk(ln["body"]))
+                if not plain:
+                    det = "the enclosing loop is not a plain counting loop from 0"
+                else:
+                    vname = f.var_name(vid)
+                    idx = core.poly(f, a[2])
+                    ordr = core.poly(f, a[3])
+                    bound = core.poly(f, cond["ch"][1]) + (core.Poly.const(1) if cond["op"] == "<=" else core.Poly())       # i < bound
+                    # index = centre - order + i with the same order expression that is handed to the callee; bound = order + 1
+                    ctr = idx - core.Poly.atom(vname) + ordr
+                    atoms = ctr.atoms()
+                    is_centre = len(ctr.t) == 1 and all("centers" in a_ for a_ in atoms) and list(ctr.t.values()) == [1]
+                    ok = is_centre and (bound - ordr - core.Poly.const(1)) == core.Poly()
+                    det = "index %s for %s in [0, %s): %s" % (f.render(a[2]), vname, f.render(cond["ch"][1]),
+                                                              "basis functions centre-order .. centre" if ok else
+                                                              "the loop does not stop at i = order (bound - order - 1 = %r): bspline_deriv is asked for basis functions beyond the centre and reads knots[centre+order+2 ..]" % (bound - ordr - core.Poly.const(1)))
+            n += 1
+            C.ob("CL-10", name, "deriv-row-range", ok, f.loc(i), det)
+    if n == 0:
+        raise core.AnalysisBroken("CL-10: no call of bspline_deriv found in ndsplineeval_deriv")
+    return n
